@@ -29,12 +29,15 @@ OPT_VALUES = {
                'Pandas-Records', 'other'],
     'charset': ['utf-8', 'UTF-8', 'latin1'],
     'version': ['1', '1.0', '2'],
-    'a': ['x', 'y', 'x y', 'k=v', 'p;q'],
+    'a': ['x', 'y', 'x y', 'k=v', 'p;q', 'say "hi"', 'back\\slash', '"', ''],
 }
 Q_POOL = ['0', '0.0', '0.1', '0.25', '0.3', '0.30', '0.300', '0.5', '.5', '0.50', '0.500', '0.501', '0.75', '0.8',
-          '0.9', '0.999', '1', '1.', '1.0', '1.00', '1.000', '2', '0.001', '00.5', '01']
+          '0.9', '0.999', '1', '1.', '1.0', '1.00', '1.000', '2', '0.001', '00.5', '01',
+          # out of the RFC range, still numbers for float(): ordered like any other key
+          '-1', '-0.5', '+0.5', '+1', '-0', '-0.0', '+.5', '1.5', '10', '-.001']
 BAD_Q = ['abc', '', '1..2', '0.5x', 'x', '.', '--1', '0.5.', '1/2', 'q']
 WS = ['', '', '', ' ', ' ', '  ', '\t', ' \t ']
+WS_EXOTIC = ['\x0c', '\x0b', '\r\n', '\x1f', '\x1c ', '\n']  # str.isspace / regex \s beyond blank and tab
 
 
 # texts that pandas.read_csv re-types (numbers, missing-value markers, booleans)
@@ -133,30 +136,40 @@ class C19(fw.Check):
     ID = 'C19'
     LEAN_MODULES = ['ForML.Props.C19']
     DRIVER = 'drv_c19'
-    RULE = ('Headers: 1..5 (sometimes 0 or 6..8) media ranges from pools of 11 concrete kinds and 24 wildcard patterns '
-            '(*, ?, [..], [!..], ranges, unterminated [), random upper-casing, 0..3 options (quoted / spaced / repeated '
-            'keys / flag parameters without =), q from a 25-value pool built for ties (missing, 0, 1., .5, 0.50, 0.500, '
-            'Q=, quoted), random blanks/tabs around , ; =; a malformed stream (q not a number, empty items, stray ; and '
-            'quotes) compared with the model only.  A header case is distinct by its text and non-trivial when it has '
-            '>= 2 ranges.  Pairs: every (pattern, concrete) pair of a pool of >= 40 encodings; random glob strings over '
-            '{a,b,c,/,-,*,?,[,],!}.  Encoders: 1..4 pool encodings and parsed Accept headers; decoders: every pool '
-            'encoding and parsed Content-Type headers.  Round trip: tables of 1..4 columns x 1..5 rows of ints / texts '
-            'for text/csv, pandas-records -> application/json, pandas-columns -> application/json; the format=pandas-* '
-            'decoders are attempted and counted as unusable when pandas.read_json refuses a literal string.  Oracle on '
-            'the real code: order = sort by (-q, position) of the generated ranges; match = spec wildcard matcher + '
-            'option subset; encoder = encoding accepted by the first client pattern that accepts any supported one, '
-            'error iff none; decoder = its pattern accepts the content type, error iff none; decoded table == table.')
+    RULE = ('Headers: 1..5 (sometimes 6 or 8) media ranges from pools of 11 concrete kinds and 24 wildcard patterns (*, ?, [..], '
+            '[!..], ranges, unterminated [), random upper-casing of kinds and option names, 0..3 options with distinct names '
+            '(token or quoted-string values incl. blanks, ;, =, escaped quotes and backslashes, empty), q from a 35-value pool built '
+            'for ties (missing, 0, 1., .5, 0.50, 0.500, Q=, quoted, signed and > 1 values), random blanks/tabs around , ; =.  A '
+            'header case is distinct by its text and non-trivial when it has >= 2 ranges.  Each header is also used as Accept '
+            '(get_encoder(*parse(h))) and as Content-Type (get_decoder(parse(h)[0])).  A separate stream outside the grammar '
+            '(q not a number / empty / repeated, empty items, parameters without =, stray ; and quotes, commas inside quoted '
+            'strings, Python-only white space) is compared with the model and reported as a fidelity note only.  Pairs: every '
+            '(pattern, other) pair of a pool of >= 40 encodings (oracle on the concrete others); random glob strings over '
+            '{a,b,c,/,-,*,?,[,],!} against fnmatch.  Encoders: 1..4 pool encodings; decoders: every pool encoding.  REST: the '
+            'gateway route driven through starlette with generated Content-Type and Accept headers (status 415 vs chosen '
+            'response encoding).  Round trip: tables of 1..4 columns x 1..5 rows of ints, texts (blanks, commas, quotes) and '
+            'floats of <= 10 decimal places for text/csv, pandas-records -> application/json, pandas-columns -> '
+            'application/json (the format=pandas-* decoders are attempted and counted as unusable when pandas.read_json refuses a '
+            'literal string); plus typed-looking text cells (C19-F1) and floats of 11..14 decimal places (C19-F2).  Oracle on '
+            'the real code: order = sort by (-q, position) of the generated ranges; match = own wildcard matcher + option '
+            'subset; encoder = any encoding accepted by the first client pattern that accepts a supported one, error iff none; '
+            'decoder = its pattern accepts the content type, error iff none; decoded table == table (numbers by value).')
     TRUSTED = [
         'cgi.parse_header, fnmatch.translate, float(): the slices reachable from the generated grammar are modelled and '
-        'correspondence-checked; beyond it (q with sign/exponent/inf/>3 decimals, non-ASCII blanks or case, bracket '
-        'bodies where a dropped range is followed by "!") modelled-not-verified',
-        'pandas JSON/CSV writers and readers: sampled by the round trip only; the Lean round trip theorem covers the '
-        'unquoted text/csv token slice',
+        'correspondence-checked; beyond it (q with exponent/inf/nan/_/>3 decimals, non-ASCII blanks or case, bracket '
+        'bodies where a dropped range is followed by "!") modelled-not-verified; headers outside the RFC grammar are compared '
+        'with the model as a fidelity note, not as a verdict',
+        'pandas JSON/CSV writers and readers: sampled by the round trip only; the Lean round trip theorems cover the '
+        'unquoted text/csv token slice, single typed cells and the ten-place rounding of float cells',
         'CPython sorted() stability (the model is a stable insertion sort; tie order is compared on every header)',
+        'starlette test client (the REST route is driven in-process, no socket)',
     ]
-    ASSUMPTIONS = ['header text is ASCII; q has at most three decimals (RFC 9110 grammar)',
-                   'round trip tables: non-empty, distinct column names, int cells and text cells that do not look like '
-                   'numbers / NA markers / booleans (CSV is untyped)']
+    ASSUMPTIONS = ['header text is ASCII; q has at most three decimals (RFC 9110 grammar), sign and values > 1 included',
+                   'round trip tables: at least one row (the decoder refuses an empty frame by design), distinct column names, '
+                   'int cells, text cells, float cells that are decimal numbers of at most 15 significant digits (full 17-digit '
+                   'doubles are not compared: pandas.read_csv\'s default converter is 1 ulp off on about a quarter of them)',
+                   'the format=pandas-* JSON decoders cannot run under the installed pandas 3 (read_json takes a literal as a path): '
+                   'their negotiation is checked, their decoding is not']
 
     # ---- tables -----------------------------------------------------------------------------------
     @staticmethod
@@ -206,58 +219,65 @@ class C19(fw.Check):
             return kind.upper()
         return ''.join(c.upper() if self.rng.random() < 0.4 else c for c in kind)
 
-    def _range_spec(self, ties: typing.Optional[list] = None):
-        """one media range: (text, expected kind, expected options, q)"""
+    def _ws(self, exotic: bool = False) -> str:
+        if exotic and self.rng.random() < 0.05:
+            return self.rng.choice(WS_EXOTIC)
+        return self.rng.choice(WS)
+
+    def _range_spec(self, ties: typing.Optional[list] = None, kinds: typing.Optional[list] = None, exotic: bool = False):
+        """one media range: (text, expected kind, expected options, q).  `exotic` adds what is outside the header grammar
+        of RFC 9110 (parameters without '=', a repeated q, Python-only white space): model comparison only."""
         rng = self.rng
-        kind = rng.choice(CONCRETE_KINDS if rng.random() < 0.6 else PATTERN_KINDS)
+        kind = rng.choice(kinds) if kinds else rng.choice(CONCRETE_KINDS if rng.random() < 0.6 else PATTERN_KINDS)
         params = []  # (key text, value text or None, effective key, effective value)
-        for _ in range(rng.choice([0, 0, 0, 1, 1, 2, 3])):
-            k = rng.choice(OPT_KEYS)
+        nopt = rng.choice([0, 0, 0, 1, 1, 2, 3])
+        for k in ([rng.choice(OPT_KEYS) for _ in range(nopt)] if exotic else rng.sample(OPT_KEYS, nopt)):  # repeated keys: exotic only
             v = rng.choice(OPT_VALUES[k])
             ktxt = k if rng.random() < 0.8 else k.upper()
-            style = rng.random()
-            if ' ' in v or ';' in v or style < 0.2:
-                vtxt = '"' + v + '"'
+            if any(c in v for c in ' ;"') or v == '' and rng.random() < 0.5 or rng.random() < 0.2:
+                vtxt = '"' + v.replace('\\', '\\\\').replace('"', '\\"') + '"'  # quoted-string with quoted-pairs
             else:
                 vtxt = v
             params.append((ktxt, vtxt, k, v))
-        if rng.random() < 0.1:
+        if exotic and rng.random() < 0.2:
             params.append((rng.choice(['flag', 'x', 'Q']), None, None, None))  # no '=': ignored by cgi
         qsrc = rng.random()
         if qsrc < 0.7:
             q = rng.choice(ties) if ties and rng.random() < 0.6 else rng.choice(Q_POOL)
-            qtxt = q if rng.random() < 0.9 else '"' + q + '"'
+            qtxt = q if rng.random() < 0.9 else '"' + q + rng.choice(['', ' ']) + '"'
             params.insert(rng.randint(0, len(params)), ('q' if rng.random() < 0.85 else 'Q', qtxt, 'q', q))
-            if rng.random() < 0.05:  # a repeated q: the last one counts (dict semantics)
+            if exotic and rng.random() < 0.1:  # a repeated q: the last one counts (dict semantics)
                 q2 = rng.choice(Q_POOL)
                 params.append(('q', q2, 'q', q2))
-        text = rng.choice(WS) + self._case_kind(kind) + rng.choice(WS)
+        text = self._ws(exotic) + self._case_kind(kind) + self._ws(exotic)
         eff: dict = {}
         for ktxt, vtxt, k, v in params:
-            text += ';' + rng.choice(WS)
+            text += ';' + self._ws(exotic)
             if vtxt is None:
                 text += ktxt
             else:
                 text += ktxt + rng.choice(['', '', ' ']) + '=' + rng.choice(['', '', ' ']) + vtxt
                 eff[k] = v
-            text += rng.choice(WS)
+            text += self._ws(exotic)
         q = F(eff.pop('q')) if 'q' in eff else F(1)
         return text, kind.strip().lower(), eff, q
 
-    def _header_spec(self):
+    def _header_spec(self, kinds: typing.Optional[list] = None, exotic: bool = False, sizes=(1, 2, 2, 3, 3, 3, 4, 4, 5, 5, 6, 8)):
         rng = self.rng
-        n = rng.choice([1, 2, 2, 3, 3, 3, 4, 4, 5, 5, 6, 8])
+        n = rng.choice(sizes)
         ties = rng.sample(Q_POOL, 2) + ['0.5', '0.50']
-        items = [self._range_spec(ties) for _ in range(n)]
+        items = [self._range_spec(ties, kinds, exotic) for _ in range(n)]
         text = items[0][0]
         for it in items[1:]:
-            text += rng.choice(WS) + ',' + rng.choice(WS) + it[0]
+            text += self._ws(exotic) + ',' + self._ws(exotic) + it[0]
         return text, [(k, o, q) for _, k, o, q in items]
 
     def _malformed(self) -> str:
         rng = self.rng
-        style = rng.randrange(6)
-        base, _ = self._header_spec()
+        style = rng.randrange(7)
+        base, _ = self._header_spec(exotic=True)
+        if style == 6:
+            return base
         if style == 0:
             return base + rng.choice([';q=', '; q = ', ';Q=']) + rng.choice(BAD_Q)
         if style == 1:
@@ -265,7 +285,8 @@ class C19(fw.Check):
         if style == 2:
             return base.replace(';', ';;', 1) + rng.choice([';', ';;', '; ;x'])
         if style == 3:
-            return base + rng.choice([';a="x', ';a="x;q=0.1', ';a="x\\";q=0.1";q=0.2', ';a="\\\\";q=0.3', ';a="', ';a=""', ';a="""'])
+            return base + rng.choice([';a="x', ';a="x;q=0.1', ';a="x\\";q=0.1";q=0.2', ';a="\\\\";q=0.3', ';a="', ';a=""', ';a="""',
+                                      ';a="x,y"', ';a="x , y";q=0.4', ';a="x,b/c;q=0.9"', ';q="0.4,0.9"'])
         if style == 4:
             return rng.choice(['a;q=abc,b', 'a;q=0.5,b;q=x', 'a,b;q=', ';q=0.5', '=;q=0.2,a', 'a;=x;q=0.7', 'a; =  ;q=.1,b'])
         return base.replace('q=', 'q=' + rng.choice(BAD_Q), 1) if 'q=' in base else base + ';q=' + rng.choice(BAD_Q)
@@ -325,6 +346,18 @@ class C19(fw.Check):
             return int(m[1])
         return ('model', m)
 
+    def _outside(self, what, case, impl, model):
+        """model and code differ on an input the property does not speak about (a header outside its grammar, a
+        non-concrete encoding where a concrete one is expected): recorded in the evidence, not a verdict"""
+        self._outside_list.append({'what': what, 'case': case, 'impl': impl, 'model': model})
+
+    def _outside_report(self):
+        self.extra['outside_property_mismatches'] = len(self._outside_list)
+        if self._outside_list:
+            self.extra['outside_property_samples'] = self._outside_list[:3]
+            self.notes.append(f'{len(self._outside_list)} inputs outside the property (malformed headers, non-concrete content types) are '
+                              f'handled differently by model and code (first: {self._outside_list[0]}) - model fidelity note, not a verdict')
+
     # ---- oracles --------------------------------------------------------------------------------------
     def _oracle_parse(self, header, spec, impl):
         """spec = generated ranges [(kind, options, q)]; expected = ordered by descending q, ties in header order"""
@@ -356,7 +389,7 @@ class C19(fw.Check):
 
     def _oracle_decoder(self, src, idx):
         k, o = src
-        if '*' in k:
+        if any(ch in k for ch in '*?['):
             return None  # not a concrete content type: the property does not speak about it
         accepted = [i for i, (dk, do) in enumerate(self._decs) if spec_match(dk, do, k, o)]
         if idx is None:
@@ -376,10 +409,11 @@ class C19(fw.Check):
             ('*/*;q=0.1,application/*;q=0.2,Application/JSON;Format=pandas-split;q=0.3',
              [('*/*', {}, F(1, 10)), ('application/*', {}, F(1, 5)), ('application/json', {'format': 'pandas-split'}, F(3, 10))]),
             (' text/csv ; a = "p;q" ;q=.5 ,\ttext/html', [('text/csv', {'a': 'p;q'}, F(1, 2)), ('text/html', {}, F(1))]),
-            ('a;q=1;q=0.2, b;q=0.3', [('a', {}, F(1, 5)), ('b', {}, F(3, 10))]),
+            ('a;q=-1, b;q=2, c;q=+0.5, d;q=-0.0, e;q=0', [('a', {}, F(-1)), ('b', {}, F(2)), ('c', {}, F(1, 2)), ('d', {}, F(0)), ('e', {}, F(0))]),
+            ('text/csv; a="say \\"hi\\""; q="0.5", */*;q=0.5', [('text/csv', {'a': 'say "hi"'}, F(1, 2)), ('*/*', {}, F(1, 2))]),
         ]
         cases = list(corpus)
-        for _ in range(self.n(3000, 100000)):
+        for _ in range(self.n(8000, 100000)):
             cases.append(self._header_spec())
         answers = self.model([sexp.dumps(['parse', h]) for h, _ in cases] + [sexp.dumps(['accept', h]) for h, _ in cases]
                              + [sexp.dumps(['content', h]) for h, _ in cases])
@@ -398,7 +432,7 @@ class C19(fw.Check):
             bad = self._oracle_parse(header, spec, impl)
             if bad:
                 self.violate(bad[0], {'kind': 'parse', 'header': header, 'spec': self._spec_json(spec)}, bad[1])
-            if impl[0] != 'ok':
+            if impl[0] != 'ok' or not impl[1]:
                 continue
             # the gateway path: rest.py parses Accept, Generic.respond -> get_encoder(*accept);
             # Content-Type: parse(...)[0], Generic.receive -> get_decoder
@@ -412,7 +446,8 @@ class C19(fw.Check):
             didx = self._impl_decoder(impl[1][0])
             mdidx = self._model_idx(answers[2 * n + i])
             if didx != mdidx:
-                self.diverge('get_decoder(parse(content-type)[0])', {'header': header}, didx, mdidx)
+                (self._outside if any(ch in impl[1][0][0] for ch in '*?[') else self.diverge)(
+                    'get_decoder(parse(content-type)[0])', {'header': header}, didx, mdidx)
             bad = self._oracle_decoder(impl[1][0], didx)
             if bad:
                 self.violate(bad[0], {'kind': 'content', 'header': header}, bad[1])
@@ -422,17 +457,21 @@ class C19(fw.Check):
         return [[k, o, str(q)] for k, o, q in spec]
 
     def _malformed_stream(self):
-        cases = ['', ',', 'a,,b', 'a;q=abc', 'a;q=', 'a;=x', 'a;b', 'a;b=1;b=2;c=3', ';', 'a;q="0.5', 'a;x="1;q=0";q=0.5,b;q=0.7']
-        cases += [self._malformed() for _ in range(self.n(600, 20000))]
+        """Headers outside the property's grammar (bad or repeated q, empty items, parameters without '=', stray ; and quotes,
+        commas inside quoted strings, Python-only white space): the model is compared with the code, a mismatch is recorded
+        in the evidence (`outside_property_mismatches`, notes) but is not a verdict — the property says nothing about these."""
+        cases = ['', ',', 'a,,b', 'a;q=abc', 'a;q=', 'a;=x', 'a;b', 'a;b=1;b=2;c=3', ';', 'a;q="0.5', 'a;x="1;q=0";q=0.5,b;q=0.7',
+                 'a;q=1;q=0.2, b;q=0.3', 'a;x="1,2";q=0.1, b', 'a\x0c;\x1fq=0.5\x1c,\nb']
+        cases += [self._malformed() for _ in range(self.n(1500, 20000))]
         answers = self.model([sexp.dumps(['parse', h]) for h in cases])
         for header, ans in zip(cases, answers):
             impl = self._impl_parse(header)
             m = sexp.loads(ans)
-            self.case(('m', header), 'malformed -> ' + (impl[0] if impl[0] == 'ok' else str(impl[1])), nontrivial=True)
+            self.case(('m', header), 'outside grammar -> ' + (impl[0] if impl[0] == 'ok' else str(impl[1])), nontrivial=True)
             ci = ['ok', [_canon_enc(k, o) for k, o in impl[1]]] if impl[0] == 'ok' else list(impl)
             cm = ['ok', [_canon_enc(k, dict(map(tuple, o))) for k, o in m[1]]] if m[0] == 'ok' else m
             if ci != cm:
-                self.diverge('Encoding.parse (malformed stream)', {'header': header}, ci, cm)
+                self._outside('Encoding.parse', {'header': header}, ci, cm)
 
     def _pairs(self):
         from forml.io import layout
@@ -447,7 +486,7 @@ class C19(fw.Check):
             self.case(('p', p[0], tuple(sorted(p[1].items())), c[0], tuple(sorted(c[1].items()))),
                       f'pair {"concrete" if concrete else "non-concrete"} -> {impl}', nontrivial=impl or bool(p[1]))
             if (ans == 'true') != impl:
-                self.diverge('Encoding.match', {'pattern': list(p), 'other': list(c)}, impl, ans)
+                (self.diverge if concrete else self._outside)('Encoding.match', {'pattern': list(p), 'other': list(c)}, impl, ans)
             if concrete and impl != spec_match(p[0], p[1], c[0], c[1]):
                 self.violate(f'Encoding{p}.match(Encoding{c}) is {impl}: kind-as-wildcard {spec_wild(p[0], c[0])}, '
                              f'options subset {all(c[1].get(k) == v for k, v in p[1].items())}',
@@ -505,7 +544,7 @@ class C19(fw.Check):
     def _negotiation(self, pool):
         rng = self.rng
         cases = [[('foo/bar', {}), ('application/*', {})], [], [('*/*', {})], [('text/*', {}), ('application/json', {})]]
-        for _ in range(self.n(1500, 20000)):
+        for _ in range(self.n(4000, 20000)):
             cases.append([rng.choice(pool) for _ in range(rng.choice([1, 1, 2, 2, 3, 4]))])
         answers = self.model([sexp.dumps(['encoder', [_enc_sexp(*t) for t in ts]]) for ts in cases])
         for ts, ans in zip(cases, answers):
@@ -525,17 +564,25 @@ class C19(fw.Check):
             self.case(('d', src[0], tuple(sorted(src[1].items()))),
                       f'decoder -> {"unsupported" if idx is None else "#" + str(idx)}', nontrivial=True)
             if idx != midx:
-                self.diverge('get_decoder', {'source': list(src)}, idx, midx)
+                (self._outside if any(ch in src[0] for ch in '*?[') else self.diverge)('get_decoder', {'source': list(src)}, idx, midx)
             bad = self._oracle_decoder(src, idx)
             if bad:
                 self.violate(bad[0], {'kind': 'decoder', 'source': list(src)}, bad[1])
 
     # ---- codec round trip -------------------------------------------------------------------------------
-    def _table(self, slice_only: bool):
+    def _float(self, decimals: typing.Tuple[int, int], wide: bool = True) -> float:
+        """a decimal number of at most 15 significant digits (the precision to which a double identifies a decimal)"""
+        rng = self.rng
+        ip = rng.choice([0, 0, rng.randint(0, 9), rng.randint(0, 9999)]) if wide else rng.randint(0, 9)
+        nd = rng.randint(*decimals)
+        frac = ''.join(rng.choice('0123456789') for _ in range(nd))
+        return float(f"{rng.choice(['', '-'])}{ip}.{frac or '0'}")
+
+    def _table(self, slice_only: bool, floats: typing.Optional[typing.Tuple[int, int]] = None):
         rng = self.rng
         ncol = rng.randint(1, 4)
         names = rng.sample(['A', 'B', 'col_1', 'x', 'Label', 'z9'] + ([] if slice_only else ['x y', 'a,b']), ncol)
-        kinds = [rng.choice(['int', 'str']) for _ in range(ncol)]
+        kinds = [rng.choice(['int', 'str'] + (['float', 'float'] if floats else [])) for _ in range(ncol)]
         alphabet = 'xyzwk' if slice_only else 'xyzwk ,"\'-'
         rows = []
         for _ in range(rng.randint(1, 5)):
@@ -543,18 +590,68 @@ class C19(fw.Check):
             for kd in kinds:
                 if kd == 'int':
                     row.append(rng.randint(-1000, 1000))
+                elif kd == 'float':
+                    row.append(self._float(floats))
                 else:
                     body = ''.join(rng.choice(alphabet) for _ in range(rng.randint(0, 4)))
                     row.append(rng.choice('xyzwk') + body + rng.choice('xyzwk'))
             rows.append(row)
         return names, kinds, rows
 
+    @staticmethod
+    def _plain(v):
+        """a decoded cell as a plain Python value: int / float (NaN for every missing-value object) / bool / str"""
+        import numbers
+        if isinstance(v, str):
+            return v
+        if isinstance(v, bool) or type(v).__name__ in ('bool_', 'bool'):  # numpy.bool_ (named 'bool' in numpy 2)
+            return bool(v)
+        if isinstance(v, numbers.Integral):
+            return int(v)
+        if isinstance(v, numbers.Real):
+            return float(v)
+        if v is None or v != v:
+            return float('nan')
+        return repr(v)
+
+    @staticmethod
+    def _same_cell(g, w, kd) -> bool:
+        """the decoded cell is the cell that was encoded (numbers by value, text by text)"""
+        if kd == 'str':
+            return isinstance(g, str) and g == w
+        if isinstance(g, (bool, str)):
+            return False
+        return isinstance(g, (int, float)) and g == w  # a row of numbers only is handed out as one float array: by value
+
+    @staticmethod
+    def _is_retyped_text(g, w) -> bool:
+        """g is what a type-inferring reader makes of the text w (number / missing value / boolean)"""
+        if isinstance(g, str):
+            return False
+        if w in _NA:
+            return isinstance(g, float) and g != g
+        if w.lower() in _BOOL:
+            return isinstance(g, bool) and g == (w.lower() == 'true')
+        if _NUMERIC.match(w):
+            return isinstance(g, (int, float)) and not isinstance(g, bool) and float(g) == float(w)
+        return False
+
+    @staticmethod
+    def _is_rounded(g, w) -> bool:
+        """g is the float w rounded to ten decimal places (and not w itself)"""
+        return (isinstance(g, (int, float)) and not isinstance(g, bool) and float(g) != w
+                and abs(float(g) - w) <= 0.5000001e-10 and float(g) == float(f'{float(g):.10f}'))
+
+    @staticmethod
+    def _jsonable(v):
+        return v if isinstance(v, (int, str, bool)) or (isinstance(v, float) and v == v and abs(v) != float('inf')) else repr(v)
+
     def _roundtrip_once(self, names, kinds, rows, enc_idx, dec_enc):
-        """encode with ENCODERS[enc_idx], decode with get_decoder(dec_enc); returns (status, detail, encoded text)"""
+        """encode with ENCODERS[enc_idx], decode with get_decoder(dec_enc); returns (status, detail, encoded bytes)"""
         from forml.io import dsl, layout
         from forml.io.layout import _codec
-        schema = dsl.Schema.from_fields(*(dsl.Field(dsl.Integer() if kd == 'int' else dsl.String(), name=nm)
-                                          for nm, kd in zip(names, kinds)))
+        kind_of = {'int': dsl.Integer, 'str': dsl.String, 'float': dsl.Float}
+        schema = dsl.Schema.from_fields(*(dsl.Field(kind_of[kd](), name=nm) for nm, kd in zip(names, kinds)))
         encoder = _codec.ENCODERS[enc_idx]
         data = encoder.dumps(layout.Outcome(schema, [list(r) for r in rows]))
         try:
@@ -562,22 +659,29 @@ class C19(fw.Check):
             entry = decoder.loads(data)
         except FileNotFoundError:
             return 'unusable', 'pandas.read_json treats the literal as a path', data
+        except Exception as err:  # pylint: disable=broad-except
+            return 'differs', {'error': f'{type(err).__name__}: {err}'[:200], 'cause': None}, data
         got_names = [f.name for f in entry.schema]
-        got_rows = [[int(v) if kd == 'int' and not isinstance(v, str) and v == v else v for v, kd in zip(r, kinds)]
-                    for r in entry.data.to_rows()]
-        got_rows = [[v if isinstance(v, (int, str)) else repr(v) for v in r] for r in got_rows]
-        if got_names != list(names) or got_rows != [list(r) for r in rows]:
-            retyped = (encoder.encoding.kind == 'text/csv' and got_names == list(names) and len(got_rows) == len(rows)
-                       and all(g == w or (kd == 'str' and looks_typed(w))
-                               for gr, wr in zip(got_rows, rows) for g, w, kd in zip(gr, wr, kinds)))
-            return 'differs', {'columns': got_names, 'rows': got_rows, 'retyped_text_only': retyped}, data
-        return 'same', None, data
+        got_rows = [[self._plain(v) for v in r] for r in entry.data.to_rows()]
+        if (got_names == list(names) and len(got_rows) == len(rows) and all(len(gr) == len(wr) for gr, wr in zip(got_rows, rows))
+                and all(self._same_cell(g, w, kd) for gr, wr in zip(got_rows, rows) for g, w, kd in zip(gr, wr, kinds))):
+            return 'same', None, data
+        cause = None
+        if got_names == list(names) and len(got_rows) == len(rows) and all(len(gr) == len(wr) for gr, wr in zip(got_rows, rows)):
+            diff = [(g, w, kd) for gr, wr in zip(got_rows, rows) for g, w, kd in zip(gr, wr, kinds) if not self._same_cell(g, w, kd)]
+            if encoder.encoding.kind == 'text/csv' and all(kd == 'str' and looks_typed(w) and self._is_retyped_text(g, w) for g, w, kd in diff):
+                cause = 'csv-text-retyped'
+            elif encoder.encoding.kind == 'application/json' and all(kd == 'float' and self._is_rounded(g, w) for g, w, kd in diff):
+                cause = 'json-float-rounded'
+        return 'differs', {'columns': got_names, 'rows': [[self._jsonable(v) for v in r] for r in got_rows], 'cause': cause}, data
 
     @staticmethod
     def _rt_signature(label: str, detail) -> str:
-        """the known root cause (untyped CSV: text cells that look like numbers / NA / booleans are re-typed by the
-        reader) gets its own key; any other difference of any pair keeps the pair's key"""
-        return 'roundtrip-csv-text-retyped' if detail.get('retyped_text_only') else 'roundtrip-' + label
+        """the two known root causes get their own keys — untyped CSV (every differing cell is a text cell that looks
+        like a number / NA marker / boolean and came back as exactly that typed reading) and the ten-decimal rounding of the
+        JSON encoders (every differing cell is a float cell that came back as itself rounded to ten places); any other
+        difference of any pair keeps the pair's key"""
+        return 'roundtrip-' + (detail.get('cause') or label)
 
     def _codec_pairs(self):
         """(label, encoder index, content type given to get_decoder): the decoder's pattern matches the encoder's encoding"""
@@ -589,26 +693,30 @@ class C19(fw.Check):
                 pairs.append((f'{k};{o["format"]} as plain application/json', i, (k, {})))
         return pairs
 
+    def _rt_case(self, tag, names, kinds, rows, pairs, usable, probe: bool):
+        for label, ei, dec in pairs:
+            if usable.get(label) is False or (not probe and not usable.get(label)):
+                continue
+            status, detail, data = self._roundtrip_once(names, kinds, rows, ei, dec)
+            if status == 'unusable':
+                usable[label] = False
+                self.case(('rt-unusable', label), f'roundtrip {label} unusable here', nontrivial=False)
+                continue
+            usable[label] = True
+            self.case((tag, label, tuple(names), tuple(map(tuple, rows))), f'roundtrip {tag} {label} -> {status}', nontrivial=len(rows) > 1 or tag != 'rt')
+            if status == 'differs':
+                self.violate(f'{label}: dumps -> loads returned {detail} for columns {names} rows {rows} (encoded: {data[:120]!r})',
+                             {'kind': 'roundtrip', 'names': names, 'kinds': kinds, 'rows': rows, 'encoder': list(self._encs[ei]), 'decoder': list(dec)},
+                             self._rt_signature(label, detail))
+
     def _roundtrip(self):
         pairs = self._codec_pairs()
         usable: dict = {}
-        tables = [(['A', 'B'], ['int', 'str'], [[1, 'a'], [2, 'b']])]
-        tables += [self._table(slice_only=False) for _ in range(self.n(120, 1500))]
+        # ints, texts, floats of at most ten decimal places: every usable pair returns the table
+        tables = [(['A', 'B'], ['int', 'str'], [[1, 'a'], [2, 'b']]), (['A', 'B'], ['float', 'str'], [[0.5, 'a'], [-2.25, 'b']])]
+        tables += [self._table(slice_only=False, floats=(0, 10) if i % 2 else None) for i in range(self.n(400, 2000))]
         for names, kinds, rows in tables:
-            for label, ei, dec in pairs:
-                if usable.get(label) is False:
-                    continue
-                status, detail, data = self._roundtrip_once(names, kinds, rows, ei, dec)
-                if status == 'unusable':
-                    usable[label] = False
-                    self.case(('rt-unusable', label), f'roundtrip {label} unusable here', nontrivial=False)
-                    continue
-                usable[label] = True
-                self.case(('rt', label, tuple(names), tuple(map(tuple, rows))), f'roundtrip {label}', nontrivial=len(rows) > 1)
-                if status == 'differs':
-                    self.violate(f'{label}: dumps -> loads returned {detail} for columns {names} rows {rows}',
-                                 {'kind': 'roundtrip', 'names': names, 'kinds': kinds, 'rows': rows, 'encoder': list(self._encs[ei]), 'decoder': list(dec)},
-                                 self._rt_signature(label, detail))
+            self._rt_case('rt', names, kinds, rows, pairs, usable, probe=True)
         # text cells that look typed: JSON keeps them (typed format), text/csv does not (known finding C19-F1)
         for _ in range(self.n(40, 400)):
             names, kinds, rows = self._table(slice_only=True)
@@ -622,19 +730,24 @@ class C19(fw.Check):
                         r[j] = 'x'
                 if whole or self.rng.random() < 0.5:
                     r[col] = self.rng.choice(TYPED_TEXT)
-            for label, ei, dec in pairs:
-                if not usable.get(label):
-                    continue
-                status, detail, data = self._roundtrip_once(names, kinds, rows, ei, dec)
-                self.case(('rt-typed', label, tuple(names), tuple(map(tuple, rows))), f'roundtrip typed-looking text {label} -> {status}',
-                          nontrivial=True)
-                if status == 'differs':
-                    self.violate(f'{label}: dumps -> loads returned {detail} for columns {names} rows {rows}',
-                                 {'kind': 'roundtrip', 'names': names, 'kinds': kinds, 'rows': rows,
-                                  'encoder': list(self._encs[ei]), 'decoder': list(dec)}, self._rt_signature(label, detail))
+            self._rt_case('rt-typed-text', names, kinds, rows, pairs, usable, probe=False)
+        # float cells with 11..14 decimal places (<= 15 significant digits): text/csv keeps them, every JSON encoder
+        # rounds to ten places (known finding C19-F2)
+        for _ in range(self.n(40, 400)):
+            names, kinds, rows = self._table(slice_only=True)
+            if 'float' not in kinds:
+                kinds[0] = 'float'
+            for r in rows:
+                for j, kd in enumerate(kinds):
+                    if kd == 'float':
+                        r[j] = self._float((11, 14), wide=False) if self.rng.random() < 0.8 else self._float((0, 10))
+                    elif kd == 'str' and not isinstance(r[j], str):
+                        r[j] = 'x'
+            self._rt_case('rt-fine-float', names, kinds, rows, pairs, usable, probe=False)
         self.extra['codec_pairs'] = {k: ('exercised' if v else 'unusable in this environment (pandas.read_json)') for k, v in usable.items()}
         if not any(usable.values()):
             raise fw.MachineryError('no codec pair is usable in this environment')
+        self._json_precision()
         # the unquoted CSV slice against the Lean token model (text and cells)
         csv = next((i for i, (k, _) in enumerate(self._encs) if k == 'text/csv'), None)
         if csv is None:
@@ -649,9 +762,40 @@ class C19(fw.Check):
             if m[0] != data.decode() or m[1] != want_cells:
                 self.diverge('text/csv dumps on the unquoted slice', {'names': names, 'rows': rows}, data.decode(), m)
 
+    def _json_precision(self):
+        """what the JSON encoders write for a float cell vs `Dec.jsonRender` (ties of the rounding are avoided: the
+        eleventh decimal digit is never 4 or 5)"""
+        import json
+        from forml.io import dsl, layout
+        from forml.io.layout import _codec
+        rng = self.rng
+        jsons = [i for i, (k, o) in enumerate(self._encs) if k == 'application/json' and o.get('format') in ('pandas-records', 'pandas-values', 'pandas-split')]
+        if not jsons:
+            return
+        cases = [(1, 12), (5, 1), (123456789096, 12), (0, 3)]
+        for _ in range(self.n(150, 3000)):
+            scale = rng.randint(0, 14)
+            digits = [rng.choice('0123456789') for _ in range(scale + 1)]  # one integer digit + scale decimals
+            if scale > 10:
+                digits[11] = rng.choice('01236789')
+            cases.append((int(''.join(digits)), scale))
+        schema = dsl.Schema.from_fields(dsl.Field(dsl.Float(), name='A'))
+        answers = self.model([sexp.dumps(['jsonfloat', n, k]) for n, k in cases])
+        for (n, k), ans in zip(cases, answers):
+            value = float(f'{n}e-{k}')
+            ei = rng.choice(jsons)
+            text = _codec.ENCODERS[ei].dumps(layout.Outcome(schema, [[value], [1.5]])).decode()
+            doc = json.loads(text, parse_float=F, parse_int=F)
+            cell = doc[0]['A'] if isinstance(doc, list) and isinstance(doc[0], dict) else (doc[0][0] if isinstance(doc, list) else doc['data'][0][0])
+            m = sexp.loads(ans)
+            self.case(('jsonfloat', n, k), f'json float decimals {"<=10" if k <= 10 else ">10"}', nontrivial=True)
+            if F(int(m[0]), 10 ** int(m[1])) != cell:
+                self.diverge('float cell written by a JSON encoder', {'n': n, 'scale': k, 'encoder': list(self._encs[ei])}, str(cell), m)
+
     # ---- driver of the check ------------------------------------------------------------------------------
     def correspondence(self):
         self._encs, self._decs = self._live_tables()
+        self._outside_list = []
         self.extra['tables'] = {'ENCODERS': [k + ''.join(f'; {a}={b}' for a, b in o.items()) for k, o in self._encs],
                                 'DECODERS': [k + ''.join(f'; {a}={b}' for a, b in o.items()) for k, o in self._decs]}
         self._headers()
@@ -661,6 +805,8 @@ class C19(fw.Check):
         self._negotiation(pool)
         self._roundtrip()
         self._generic()
+        self._rest()
+        self._outside_report()
 
     def _generic(self):
         """`application.Generic.receive/respond` use exactly get_decoder / get_encoder"""
@@ -685,16 +831,124 @@ class C19(fw.Check):
                 self.violate(f'Generic.respond for Accept {header!r} used encoder {got}, get_encoder gives {want}',
                              {'kind': 'generic-respond', 'header': header}, 'generic-respond')
         request = layout.Request(b'A,B\n1,x\n2,y\n', layout.Encoding.parse('Text/CSV; charset=utf-8')[0])
-        decoded = app.receive(request)
-        rows = [[int(list(r)[0]), list(r)[1]] for r in decoded.entry.data.to_rows()]
         self.case(('generic-receive',), 'Generic.receive', nontrivial=True)
+        try:
+            decoded = app.receive(request)
+            rows = [[int(list(r)[0]), list(r)[1]] for r in decoded.entry.data.to_rows()]
+        except layout.Encoding.Unsupported as err:
+            rows = f'Unsupported: {err}'
         if rows != [[1, 'x'], [2, 'y']] or request.accept != (request.payload.encoding,):
-            self.violate(f'Generic.receive decoded {rows}', {'kind': 'generic-receive'}, 'generic-receive')
+            self.violate(f'Generic.receive of a text/csv; charset=utf-8 request gave {rows}', {'kind': 'generic-receive'}, 'generic-receive')
         try:
             app.receive(layout.Request(b'x', layout.Encoding('foo/bar')))
             self.violate('Generic.receive accepted foo/bar', {'kind': 'generic-receive-unsupported'}, 'generic-receive')
         except layout.Encoding.Unsupported:
             pass
+
+    # ---- the REST gateway route (provider/gateway/rest.py Apply) ------------------------------------------------
+    @staticmethod
+    def _header_encoding(value: str):
+        """(kind, options) of a response Content-Type header as written by `Encoding.header` (plain split: no quoting there)"""
+        parts = [p.strip() for p in value.split(';')]
+        return parts[0].lower(), dict(p.split('=', 1) for p in parts[1:] if '=' in p)
+
+    def _rest_oracle(self, ctype_spec, accept_spec, status, ctype_out):
+        """415 exactly when the declared content type has no decoder or no Accept range has an encoder; otherwise the
+        response is encoded by an encoder accepted by the first satisfiable Accept range (in preference order)"""
+        best = min(range(len(ctype_spec)), key=lambda i: (-ctype_spec[i][2], i))
+        ck, co, _ = ctype_spec[best]
+        if any(c in ck for c in '*?['):
+            return None  # not a concrete content type: the property does not speak about it
+        decodable = any(spec_match(dk, do, ck, co) for dk, do in self._decs)
+        order = sorted(range(len(accept_spec)), key=lambda i: (-accept_spec[i][2], i))
+        accepted = None
+        for i in order:
+            k, o, _ = accept_spec[i]
+            hits = [j for j, (ek, eo) in enumerate(self._encs) if spec_match(k, o, ek, eo)]
+            if hits:
+                accepted = hits
+                break
+        if not decodable or accepted is None:
+            if status != 415:
+                return (f'REST gateway answered {status} although ' + ('no decoder declares the content type' if not decodable else
+                        'no Accept range is supported'), 'rest-unsupported-not-refused')
+            return None
+        if status == 415:
+            return 'REST gateway refused (415) a request whose content type has a decoder and whose Accept has a supported range', 'rest-refused'
+        if status != 200:
+            return f'REST gateway answered {status}', 'rest-status'
+        gk, go = self._header_encoding(ctype_out)  # starlette adds "; charset=utf-8" to text/* media types: extra options are fine
+        if not any(self._encs[j][0] == gk and all(go.get(k) == v for k, v in self._encs[j][1].items()) and
+                   (self._encs[j][1] or 'format' not in go) for j in accepted):
+            return (f'REST gateway responded with {ctype_out!r}, the first supported Accept range (by q, ties in header order) '
+                    f'accepts only {[self._encs[j] for j in accepted]}'), 'rest-encoder-choice'
+        return None
+
+    def _rest_call(self, client, ctype: str, accept: str, body: bytes):
+        r = client.post('/c19', content=body, headers={'content-type': ctype, 'accept': accept})
+        return r.status_code, r.headers.get('content-type', '')
+
+    def _rest_client(self):
+        from starlette import applications, testclient
+        from forml import application
+        from forml.io import layout
+        from forml.provider.gateway import rest
+        descriptor = application.Generic('c19')
+
+        async def handler(_, request):
+            entry = descriptor.receive(request).entry
+            outcome = layout.Outcome(entry.schema, entry.data.to_rows())
+            return layout.Response(descriptor.respond(outcome, request.accept, None), 'c19')
+
+        return testclient.TestClient(applications.Starlette(routes=[rest.Apply(handler)]), raise_server_exceptions=False)
+
+    REST_KINDS = ['text/csv', 'text/csv', 'application/json', 'application/json', 'foo/bar', 'text/plain', 'application/xml', 'text/*']
+    REST_ACCEPT = ['application/json', 'text/csv', 'text/*', '*/*', 'application/*', 'foo/bar', 'text/html', 'image/*', '*/json', 't*/c*v']
+    BODIES = {'text/csv': b'A,B\n1,x\n2,y\n', 'application/json': b'[{"A":1,"B":"x"},{"A":2,"B":"y"}]'}
+
+    def _rest_case(self):
+        """a Content-Type header (1..3 ranges, no format option: the pandas-* decoders are unusable here) and an Accept header"""
+        while True:
+            ctype, cspec = self._header_spec(kinds=self.REST_KINDS, sizes=(1, 1, 1, 2, 3))
+            if not any('format' in o for _, o, _ in cspec):
+                break
+        accept, aspec = self._header_spec(kinds=self.REST_ACCEPT if self.rng.random() < 0.5 else None)
+        return ctype, cspec, accept, aspec
+
+    def _rest(self):
+        try:
+            client = self._rest_client()
+        except ImportError as err:  # starlette's test client needs httpx
+            self.notes.append(f'REST route not driven: {err}')
+            return
+        corpus = [('text/csv', 'foo/bar, application/*;q=0.5'), ('text/csv', 'foo/bar'), ('application/octet-stream', '*/*'),
+                  ('text/csv;q=0.1, application/json', 'text/*;q=0.2, application/json;q=0.2;format=pandas-split'),
+                  ('Text/CSV; charset=utf-8', 'application/json;q=0.5, text/csv;q=0.50, */*;q=0.1')]
+        cases = []
+        for ctype, accept in corpus:
+            cases.append((ctype, self._respec(ctype), accept, self._respec(accept)))
+        cases += [self._rest_case() for _ in range(self.n(400, 1500))]
+        for ctype, cspec, accept, aspec in cases:
+            best = min(range(len(cspec)), key=lambda i: (-cspec[i][2], i))
+            body = self.BODIES.get(cspec[best][0], b'A\n1\n')
+            status, out = self._rest_call(client, ctype, accept, body)
+            self.case(('rest', ctype, accept), f'rest -> {status}', nontrivial=True)
+            bad = self._rest_oracle(cspec, aspec, status, out)
+            if bad:
+                self.violate(bad[0] + f' (Content-Type {ctype!r}, Accept {accept!r})',
+                             {'kind': 'rest', 'content_type': ctype, 'content_spec': self._spec_json(cspec), 'accept': accept,
+                              'accept_spec': self._spec_json(aspec)}, bad[1])
+
+    @staticmethod
+    def _respec(header: str):
+        """spec of a hand-written corpus header of the plain grammar (no quoting)"""
+        spec = []
+        for item in header.split(','):
+            parts = [p.strip() for p in item.split(';')]
+            opts = {k.strip().lower(): v.strip() for k, v in (p.split('=', 1) for p in parts[1:])}
+            q = F(opts.pop('q')) if 'q' in opts else F(1)
+            spec.append((parts[0].lower(), opts, q))
+        return spec
 
     # ---- failing-input search ---------------------------------------------------------------------------
     def search(self, reason):
@@ -712,7 +966,7 @@ class C19(fw.Check):
             for sub in sorted(subs, key=len):
                 impl = self._impl_parse(sub)
                 tried += 1
-                if impl[0] != 'ok':
+                if impl[0] != 'ok' or not impl[1]:
                     continue
                 idx = self._impl_encoder(impl[1])
                 bad = self._oracle_encoder(impl[1], idx)
@@ -755,8 +1009,8 @@ class C19(fw.Check):
             bad = self._oracle_parse(w['header'], spec, self._impl_parse(w['header']))
         elif kind in ('accept', 'content'):
             impl = self._impl_parse(w['header'])
-            if impl[0] != 'ok':
-                return fw.Violation(f'Encoding.parse raised {impl[1]}', w, 'parse-raises')
+            if impl[0] != 'ok' or not impl[1]:
+                return fw.Violation(f'Encoding.parse gave {impl[1]}', w, 'parse-raises')
             if kind == 'accept':
                 bad = self._oracle_encoder(impl[1], self._impl_encoder(impl[1]))
             else:
@@ -773,6 +1027,12 @@ class C19(fw.Check):
         elif kind == 'decoder':
             src = (w['source'][0], w['source'][1])
             bad = self._oracle_decoder(src, self._impl_decoder(src))
+        elif kind == 'rest':
+            cspec = [(k, o, F(q)) for k, o, q in w['content_spec']]
+            aspec = [(k, o, F(q)) for k, o, q in w['accept_spec']]
+            best = min(range(len(cspec)), key=lambda i: (-cspec[i][2], i))
+            status, out = self._rest_call(self._rest_client(), w['content_type'], w['accept'], self.BODIES.get(cspec[best][0], b'A\n1\n'))
+            bad = self._rest_oracle(cspec, aspec, status, out)
         elif kind == 'roundtrip':
             ei = next((i for i, e in enumerate(self._encs) if list(e) == list(w['encoder'])), None)
             if ei is None:
